@@ -137,4 +137,20 @@ PLANS = {
                 ["C09.R1.subscribed_exactly_once", "C09.R1.resubscribed_still_once", "C09.R2.not_subscribed_zero", "C09.R3.at_most_once",
                  "C09.R4.common_order", "C09.R4.publisher_order_edges", "C09.R5.subscriber_dies_while_subscribed", "C09.R6.publish_returns_ok",
                  "C09.R6.reaches_live_despite_dead"]),
+    "C18": {
+        "engines": ["xrt"],
+        "quick": {"xrt": 1},
+        "thorough": {"xrt": 20},
+        "exhaustive": True,
+        "rule": "finite catalogue enumerated completely on every run: every spawn entry point (spawn, spawn_owning, spawn_default, "
+                "DefaultSpawnable::spawn_owning, spawn_on_stream, spawn_owning_on_stream, builder bounded/unbounded x {restart-only, recreate, "
+                "non_restartable} x {spawn, spawn_owning}, builder on_stream / bounded_on_stream / with_stream x {spawn, spawn_owning}, from_registry, "
+                "setup, register, replace) x 8-14 timing-independent single-client programs (every step awaits a definite response or polls the harness "
+                "event log), each run on the tokio, async-std and smol builds of hannibal (hooks off); the normalised outcome record (operation results, "
+                "callback string, join value) must be identical on the three runtimes and across repeats, and the first ping after a spawn call returned "
+                "must be Ok; distinct_nontrivial = number of cells whose three records agree (each cell is a distinct entry x program)",
+        "required_premises": ["C18.R_same.cells_compared", "C18.R_alive.ping_after_spawn"],
+        "assumptions": ["programs are single-client by construction (they must not depend on timing)", "a 20 s watchdog per cell yields inconclusive, never a violation"],
+        "deadline": {"quick": 600, "thorough": 3000},
+    },
 }
